@@ -508,13 +508,26 @@ def flows_from_run(r, script, calls, sol):
 
 # --------------------------------------------------------------------------- the check
 def run(ck):
-    proof_ok, failing = ck.proof_stage('MpVerif.C04.Props', 'MpVerif/C04/Props.lean', 'C04_', ['MpVerif/C04/*.lean'], expect_min=25)
+    # 1. regenerate the source-tied Lean definitions from the CURRENT tree (written only if changed)
+    gen = os.path.join(LEAN, 'MpVerif', 'Gen', 'ValCvt.lean')
+    rc, out, err = sh([sys.executable, os.path.join(VERIF, 'translators', 'gen_valcvt.py'), REPO, gen, os.path.join(BUILD, 'tr_c04')], timeout=600)
+    ck.log((out.strip() or err.strip())[-300:])
+    translator_ok = rc == 0
+    if translator_ok:
+        proof_ok, failing = ck.proof_stage('MpVerif.C04.Props', 'MpVerif/C04/Props.lean', 'C04_', ['MpVerif/C04/*.lean', 'MpVerif/Gen/ValCvt.lean'], expect_min=42)
+    else:
+        proof_ok, failing = False, ['translator: ' + (out + err).strip()[-400:]]
+        ck.cov.update({'obligations': 42, 'discharged': 0, 'checker_cmd': 'translators/gen_valcvt.py failed: a construct of the anchored code is no longer understood'})
     ck.log('proof stage: ok=%s failing=%s' % (proof_ok, failing[:8]))
     if ck.tier == 'thorough' and proof_ok:
         bad = ck.leanchecker(['MpVerif.C04.Props'])
         if bad:
             failing += ['leanchecker rejected %s' % m for m in bad]
             proof_ok = False
+    if os.environ.get('C04_PROOF_ONLY'):       # (for trying source mutants against the proof stage only)
+        for fdecl in failing:
+            ck.add_violation('obligation:%s' % fdecl[:80], 'proof obligation no longer checks: %s' % fdecl, {'theorem': fdecl, 'module': 'MpVerif.C04.Props'}, found_input=False)
+        return
     cov = os.environ.get('VERIF_COVERAGE')
     if cov:
         exe, covdir = coverage_build(ck)
